@@ -61,9 +61,12 @@ T parsePlugin(const Json::Value& plugin) {
 
   for (const auto& key : json_args.getMemberNames()) {
     const auto& value = json_args[key];
-    // Value has to be a string, number, or bool
+    // Value has to be a string, number, or bool. Anything else invalidates
+    // the plugin (an unnamed plugin is rejected by the compiler) rather than
+    // silently dropping this and every following argument.
     if (!value.isString() && !value.isNumeric() && !value.isBool()) {
-      return ret;
+      OLOG << "Plugin=" << ret.name << " has a non-scalar value for arg=" << key;
+      return {};
     }
     ret.args[key] = value.asString();
   }
